@@ -277,7 +277,16 @@ pub struct Scratch {
 static SCRATCH_COUNTER: std::sync::atomic::AtomicU64 = std::sync::atomic::AtomicU64::new(0);
 
 pub fn scratch_base() -> PathBuf {
-    std::env::var_os("VERIF_SCRATCH").map(PathBuf::from).unwrap_or_else(|| PathBuf::from("/dev/shm"))
+    if let Some(p) = std::env::var_os("VERIF_SCRATCH") {
+        return PathBuf::from(p);
+    }
+    // tmpfs when available (fast, nanosecond timestamps, hard links), else the system temp directory
+    let shm = PathBuf::from("/dev/shm");
+    if shm.is_dir() {
+        shm
+    } else {
+        std::env::temp_dir()
+    }
 }
 
 impl Scratch {
